@@ -1,7 +1,7 @@
 """C13 -- grading a submission is independent of what the process graded before it.
 
 Engine ``grd``: histories of 2-10 whole gradings (Bundle.run_ics_bundle through the
-standard / blockpy environment) in ONE process, drawn from a pool of instructor scripts
+standard / blockpy / terminal / gradescope environment) in ONE process, drawn from a pool of instructor scripts
 that touch every reset path (class overrides on parent and child feedback classes,
 suppressions, formatters, mocks, real I/O, sections left open, TIFA module types,
 custom feedback classes, phases, pools, hooks, tracing, re-contextualising) and a pool of
@@ -22,7 +22,7 @@ from sim import faults, grd, grd_pool, seeds, world  # noqa: E402
 ID = 'C13'
 LEVEL = 'exploration'
 BUDGET = {'quick': 80, 'thorough': 780}
-RULE = ('seeded histories of 2-10 gradings over %d instructor scripts x %d submissions x {standard, blockpy}, repeats forced, ~30 %% of '
+RULE = ('seeded histories of 2-10 gradings over %d instructor scripts x %d submissions x {standard, blockpy, terminal, gradescope}, repeats forced, ~30 %% of '
         'gradings aborted by an exception injected at the k-th instructor-script LINE event; each position compared with the same grading run first in a pristine forked child; '
         'distinct_nontrivial = distinct (history digest) of histories with >= 2 gradings of which at least one follows a grading that '
         'used a different script' % (len(grd_pool.SCRIPTS), len(grd_pool.SUBMISSIONS)))
@@ -33,7 +33,7 @@ ASSUMPTIONS = [
     'compared fields: label, title, message, correct, score, captured output, and the class/text of the error a grading ended with',
     'Report class hooks are documented to survive clear() and are not used by the script pool',
 ]
-COMPONENTS = {'real': ['pedal.command_line.modes.Bundle', 'pedal.environments.standard / blockpy', 'pedal.core (report, feedback, environment)',
+COMPONENTS = {'real': ['pedal.command_line.modes.Bundle', 'pedal.environments.standard / blockpy / terminal / gradescope', 'pedal.core (report, feedback, environment)',
                        'pedal.source, pedal.tifa, pedal.cait, pedal.sandbox, pedal.assertions, pedal.resolvers.simple'],
               'stub': ['time.* (virtual clock)', 'console streams', 'script and submission pools (hand-written)']}
 
@@ -65,7 +65,8 @@ def build(seed, tier):
             g = dict(r.choice(gradings))       # forced repeat of an earlier (script, submission, env, fault)
         else:
             g = {'script_name': r.choice(scripts), 'submission_name': r.choice(subs),
-                 'env': r.choice(['standard', 'standard', 'blockpy']), 'rng': r.randint(1, 10 ** 6)}
+                 'env': r.choice(['standard', 'standard', 'standard', 'blockpy', 'blockpy', 'terminal', 'terminal', 'gradescope']),
+                 'rng': r.randint(1, 10 ** 6)}
             if rf.random() < 0.3:
                 # A crashed grading = an instructor script that dies AT ONE OF ITS OWN LINES (its own bug, or an
                 # exception a pedal call raised back to it).  Crash points "d events into pedal code" were tried and
